@@ -52,13 +52,15 @@ RULE = ("cases: (1) exhaustive small scope: every leaf reader (DataFrameReader, 
         "position, the harness maps position -> label before comparing; (7) repeated calls: the observed request "
         "follows other requests on the same reader object (read all, full chunked pass, abandoned chunk iterator, another "
         "projection, get_column_names) or the chunk iterator is consumed with next() and the reader is read whole in "
-        "between; (8) writers, one variation at a time over {.tab,.parquet} x b {0,2,3} x buffer kinds x 5 append "
+        "between; get_column_names() itself is observed after a whole read / a chunked pass of every small tree (the regression "
+        "of the repair af0267a of /repo: a computed reader used to write its column into the wrapped DataFrameReader's frame); (8) writers, one variation at a time over {.tab,.parquet} x b {0,2,3} x buffer kinds x 5 append "
         "sequences, and 300 (1500) random combinations: sep; column_types (matching, wider: int as float64, large_string; numpy dtypes "
         "for delimited text); a file already at the path (older table of the same layout, garbage bytes, a header whose last "
         "line has no line end, an earlier session of the same writer object); driving style (with / initialize+finalize / "
         "a with block left by an exception / auto_finalize over a list or dict view of two writers fed alternately / header by one writer object and rows "
         "through a never-initialised second one / write(frame)); row labels of appended frames (reset, permuted, strings, all "
-        "equal); numpy scalars in dicts, a one-element list of dicts; the caller overwrites the object it has just appended; "
+        "equal); numpy scalars in dicts, a one-element list of dicts; the caller overwrites the object it has just appended "
+        "(frames, dicts, records; for dicts the regression of the repair 6413561 of /repo); "
         "an append whose columns come in another order (checked by the oracle alone: ValueError or the right rows); the "
         "finalised file read back in chunks through a second associated reader; all suffixes; default arguments "
         "(BufferedWriter(inner): 1000 rows, append sequences up to 2300 rows); column names with blanks, separators, digits, "
@@ -86,8 +88,11 @@ ASSUMPTIONS = [
     "an appended frame / dict whose columns come in another order than the writer's may be refused with ValueError; if it is "
     "accepted the values must come back under their own names (this class is judged by the property oracle, the model "
     "has no notion of column order inside an append)",
-    "objects handed to append_data may be re-used by the caller afterwards (the DataFrame buffer deep-copies for this "
-    "reason); for the Dicts buffer this fails on the unchanged code: known finding buffered-writer:dicts-buffer-keeps-references",
+    "objects handed to append_data may be re-used by the caller afterwards: every buffer kind keeps the values the rows had "
+    "when they were appended (the DataFrame buffer deep-copies, the Records buffer np.append()s, the Dicts buffer copies each "
+    "dict since the repair 6413561 of /repo); a reader is a value: an earlier request on the same reader object (a whole read "
+    "of a ComputedTabularDataReader over a DataFrameReader included: repair af0267a of /repo) changes neither what it "
+    "answers next nor its get_column_names()",
     "negative chunk sizes are not modelled (the model's chunk size is a nat); chunk size 0 is",
     "Parquet record-batch lengths are an oracle recorded from pyarrow.ParquetFile.iter_batches(c) per case (once with "
     "a column projected, once with none: pyarrow 25 re-chunks across row groups only in the first case); the contract "
@@ -563,7 +568,9 @@ def _run_chunks(c):
 
 def _run_names(c):
     ids = _ids(c)
-    return [ids.look_name(n) for n in _build(c["reader"]).get_column_names()]
+    r = _build(c["reader"])
+    _run_pre(r, c.get("pre"))
+    return [ids.look_name(n) for n in r.get_column_names()]
 
 
 class _Stop(Exception):
@@ -1466,13 +1473,16 @@ def gen_repeated(ctx):
                     cases.append(_with_pre(base_r, pre, tag=pt))
                     cases.append(_with_pre(base_c, pre, tag=pt))
                 cases.append(_with_pre(_case("chunks", rd, cols, 2, tags=["tree:" + label, f"n={n}"]), lazy=True))
+            # get_column_names() after the reader has delivered data: the names do not change
+            for pt, pre in (("read-all", [["read", None]]), ("chunks-all", [["chunks", 2, None, None]]),
+                            ("read-all-twice", [["read", None], ["read", None]])):
+                cases.append(_with_pre({"fn": "names", "reader": copy.deepcopy(rd), "tags": ["names", "tree:" + label, f"n={n}"]},
+                                       pre, tag=pt))
     return cases
 
 
 K_PQ_INDEX = "parquet-reader:stored-pandas-index"
 K_CSV_MIXED = "csv-reader:per-chunk-type-inference"
-K_DICT_ALIAS = "buffered-writer:dicts-buffer-keeps-references"
-K_COMPUTED_FRAME = "computed-reader:read-all-writes-into-wrapped-frame"
 
 
 def gen_finding_streams(ctx):
@@ -2000,40 +2010,6 @@ def _model_of(c):
     return decode(c, lib.Toks(out))
 
 
-def _agrees(c):
-    """model and implementation agree on the (control) case"""
-    try:
-        return bool(same(c, _model_of(c), impl(c)))
-    except Exception:
-        return False
-
-
-def _any_node(spec, pred):
-    if pred(spec):
-        return True
-    k = spec["k"]
-    if k in ("mapped", "computed"):
-        return _any_node(spec["r"], pred)
-    if k == "joined":
-        return any(_any_node(r, pred) for r in spec["rs"])
-    return False
-
-
-def _computed_over_frame(spec):
-    """a computed reader whose wrapped reader hands out the caller's DataFrame itself for columns=None: a
-    DataFrameReader, possibly below further computed readers"""
-    if spec["k"] != "computed":
-        return False
-    r = spec["r"]
-    while r["k"] == "computed":
-        r = r["r"]
-    return r["k"] == "frame"
-
-
-def _reads_all(c):
-    return any(op[0] == "read" and op[1] is None for op in c.get("pre") or []) or (c.get("lazy") and c.get("cols") is None)
-
-
 def _strip_index(c, r):
     """a reader result without its row labels (and, for get_column_names, without the stored index column)"""
     r = lib.jsonable(r)
@@ -2061,9 +2037,10 @@ def _mask_cols(c, r, names):
 
 
 def finding_key(c, m, i):
-    """known defects of the pinned tree (known_findings.json); a key is given only when the known defect is ALL that is
-    wrong with the case: the rest of the answer equals the model's, or the same case without the offending ingredient
-    agrees with the model"""
+    """known defects of /repo (known_findings.json, kind known); a key is given only when the known defect is ALL that is
+    wrong with the case: the rest of the answer equals the model's.  Repaired defects have no key: a repeated-call case
+    over a computed reader (af0267a) or a re-used dict appended to a Dicts buffer (6413561) that disagrees with the model is
+    a violation like any other"""
     i = lib.jsonable(i)
     fn = c["fn"]
     if fn in ("read", "chunks", "names"):
@@ -2081,17 +2058,6 @@ def finding_key(c, m, i):
                 m = _model_of(c)
             renamed = set(mixed) | {b for a, b in _all_maps(c["reader"]) if a in mixed}
             return K_CSV_MIXED if _mask_cols(c, m, renamed) == _mask_cols(c, i, renamed) else None
-        if (c.get("pre") or c.get("lazy")) and _reads_all(c) and _any_node(c["reader"], _computed_over_frame):
-            ctrl = {k: v for k, v in c.items() if k not in ("pre", "lazy")}
-            return K_COMPUTED_FRAME if _agrees(ctrl) else None
-        return None
-    if fn in ("writer", "buffered"):
-        v = c.get("v") or {}
-        if v.get("alias") and c["kind"] == "Dicts" and c["b"] > 1 and i[0] == "ok":
-            ctrl = dict(c, v={k: x for k, x in v.items() if k != "alias"})
-            n = sum(c["sizes"])
-            if len(i[1]["rows"]) == n and i[1]["index"] == list(range(n)) and _agrees(ctrl):
-                return K_DICT_ALIAS
     return None
 
 
@@ -2166,7 +2132,9 @@ def _regression_probe(case, key, what):
 
 def extra_checks(ctx):
     """(a) contract of the recorded Parquet batch-length oracle; (b) the repaired defects of /repo (a CSV / Parquet leaf
-    asked for no column: fixed findings csv-reader:columns=[], parquet-reader:columns=[]) are probed with the property
+    asked for no column: fixed findings csv-reader:columns=[], parquet-reader:columns=[]; a computed reader over a
+    DataFrameReader asked again after a whole read: computed-reader:read-all-writes-into-wrapped-frame; a re-used dict
+    appended to a Dicts buffer: buffered-writer:dicts-buffer-keeps-references) are probed with the property
     oracle directly: a failure here is a violation (the keys are not known findings any more)."""
     fails = list(_ORACLE_FAILS)
     info = {"oracle_contract_checks": _ORACLE_CHECKS[0]}
@@ -2192,6 +2160,35 @@ def extra_checks(ctx):
          "regression:parquet-reader:columns=[]", "ParquetFileReader (row groups of 3) asked for columns=[], chunked"),
         (_case("chunks", _leaf("csv", plain_table(["c", "d"], 7, 7), suffix=".tab"), [], 3),
          "regression:csv-reader:columns=[]", "CSVFileReader asked for columns=[], chunked"),
+    ]
+    # af0267a: the second request on a reader whose computed member wraps a DataFrameReader, after one read() of everything
+    comp = {"k": "computed", "r": _leaf("frame", plain_table(["a", "b"], 3)), "col": "k", "fn": ["const", True]}
+    jn = {"k": "joined", "rs": [comp, _leaf("frame", plain_table(["c"], 3, 7))]}
+    probes += [
+        (_with_pre(_case("read", jn, ["c", "k"]), [["read", None]], tag="read-all"),
+         "regression:computed-reader:read-all-writes-into-wrapped-frame",
+         "JoinedTabularDataReader over ComputedTabularDataReader(DataFrameReader): read(['c','k']) after read()"),
+        (_with_pre(_case("chunks", jn, ["c", "k"], 2), [["read", None]], tag="read-all"),
+         "regression:computed-reader:read-all-writes-into-wrapped-frame",
+         "JoinedTabularDataReader over ComputedTabularDataReader(DataFrameReader): chunks of ['c','k'] after read()"),
+        (_with_pre(_case("read", comp, None), [["read", None]], tag="read-all"),
+         "regression:computed-reader:read-all-writes-into-wrapped-frame",
+         "ComputedTabularDataReader(DataFrameReader): read() after read()"),
+        (_with_pre(_case("chunks", jn, None, 2), lazy=True),
+         "regression:computed-reader:read-all-writes-into-wrapped-frame",
+         "JoinedTabularDataReader over ComputedTabularDataReader(DataFrameReader): read() between two chunks"),
+    ]
+    # 6413561: one dict refilled and appended for every row, buffer of 3 rows
+    tw = plain_table(["a", "b", "s"], 5)
+    probes += [
+        (_wcase(fn, suffix, 3, "Dicts", tw, [1, 1, 1, 1, 1], ["regression-probe"], v={"alias": True}),
+         "regression:buffered-writer:dicts-buffer-keeps-references",
+         f"{fn} {suffix}, Dicts buffer of 3 rows: the caller refills the dict it has just appended")
+        for fn, suffix in (("writer", ".tab"), ("writer", ".parquet"), ("buffered", ".tab"))
+    ] + [
+        (_wcase("writer", ".tab", 4, "Dicts", tw, [2, 2, 1], ["regression-probe"], v={"alias": True}),
+         "regression:buffered-writer:dicts-buffer-keeps-references",
+         "writer .tab, Dicts buffer of 4 rows: the caller refills the list of dicts it has just appended"),
     ]
     seen = []
     for case, key, what in probes:
